@@ -7,10 +7,13 @@ cd /repo; [ -d $W ] || git worktree add -q --detach $W HEAD
 (cd $W && git checkout -q --detach $(git -C /repo rev-parse HEAD) && git reset -q --hard HEAD)
 export VERIF_REPO=$W VERIF_BUILD=/tmp/seedmatrix/build VERIF_EVID=/tmp/seedmatrix/evidence VERIF_VIOL=/tmp/seedmatrix/violations VERIF_JOBS=${VERIF_JOBS:-8}
 for d in "$@"; do
+  d=$(cd /verif && realpath "$d")   # seeds may be given relative to /verif
+  [ -f "$d/patch.diff" ] || { echo "no patch in $d" >&2; continue; }
   s=$(basename $d); prop=${s%%_*}; out=$OUT/$s.txt
   [ -f $out ] && continue
   cd $W && git reset -q --hard HEAD
   if ! git apply $d/patch.diff 2>/dev/null; then git apply --3way $d/patch.diff 2>/dev/null; git reset -q; if grep -rlq '^<<<<<<<' crates cmds 2>/dev/null; then echo "APPLY-FAILED" > $out; git reset -q --hard HEAD; continue; fi; fi
+  git diff --quiet && { echo "APPLY-FAILED (no change)" > $out; continue; }
   props="$prop"; [ -n "${EXTRA_PROPS:-}" ] && props="$props $EXTRA_PROPS"
   : > $out
   for p in $props; do
